@@ -108,6 +108,7 @@ _CMP = {
 
 class Folder:
     def __init__(self, model: Model):
+        self._depth = 0
         self.model = model
         self._cache: Dict[Any, Any] = {}
         self._active = set()
@@ -177,6 +178,42 @@ class Folder:
                 if not st.name.startswith("_") and not (decos & {"classmethod", "staticmethod"}):
                     out[st.name] = FuncRef(ci.module, st)
         return out
+
+    def enum_tables(self, ci: ClassInfo):
+        """(name -> member, value key -> name) of an EnumMap table the way MapMeta builds it (names case-folded; the reverse
+        key is the member itself unless the table defines _value_key_ = lambda m: m.<attr>)."""
+        key = ("enumtab", ci.key)
+        if key in self._cache:
+            return self._cache[key]
+        members = {k: v for k, v in self.enum_members(ci).items() if not isinstance(v, FuncRef)}
+        by_name = {k.lower(): v for k, v in members.items()}
+        vk = self.class_attr(ci, "_value_key_")
+        rev = {}
+        for name, v in members.items():
+            k = v
+            if isinstance(vk, FuncRef) and isinstance(v, ClassRef):
+                node = vk.node
+                body = node.body if isinstance(node, ast.Lambda) else next((r.value for r in ast.walk(node) if isinstance(r, ast.Return)), None)
+                params = node.args.args
+                k = UNKNOWN
+                if body is not None and params and isinstance(body, ast.Attribute) and isinstance(body.value, ast.Name) and body.value.id == params[0].arg:
+                    k = self.class_attr(v.ci, body.attr)
+            if k is not UNKNOWN and not isinstance(k, (ClassRef, FuncRef, Instance)):
+                try:
+                    rev.setdefault(k, name)
+                except TypeError:
+                    pass
+        self._cache[key] = (by_name, rev)
+        return by_name, rev
+
+    def enum_lookup(self, ci: ClassInfo, k, default=None):
+        by_name, rev = self.enum_tables(ci)
+        if isinstance(k, str):
+            return by_name.get(k.lower(), default)
+        try:
+            return rev.get(k, default)
+        except TypeError:
+            return default
 
     # ----------------------------------------------------------------- eval
     def eval(self, node, module: Module, cls: Optional[ClassInfo] = None, env: Optional[dict] = None, func=None):
@@ -473,6 +510,12 @@ class Folder:
                     return len(args[0])
                 if name == "int" and args and is_known(args):
                     return int(*args)
+                if name == "float" and len(args) == 1 and isinstance(args[0], (int, float, str)) and not isinstance(args[0], bool):
+                    return float(args[0])
+                if name == "round" and args and is_known(args) and all(isinstance(a, (int, float)) for a in args):
+                    return round(*args)
+                if name == "abs" and len(args) == 1 and isinstance(args[0], (int, float)):
+                    return abs(args[0])
                 if name == "str" and len(args) == 1 and is_known(args[0]) and not isinstance(args[0], (ClassRef, Instance, FuncRef)):
                     return str(args[0])
                 if name == "bool" and len(args) == 1 and args[0] is not UNKNOWN:
@@ -498,6 +541,20 @@ class Folder:
             callee = ev(f)
             if isinstance(callee, ClassRef) and not has_star:
                 return Instance(callee.ci, args, kwargs)
+            if isinstance(callee, FuncRef) and isinstance(callee.node, ast.FunctionDef) and not has_star and not kwargs and is_known(args) and self._depth < 3:
+                # a small pure module-level helper applied to constants (e.g. a table built by a function): witness
+                # evaluation by the mini interpreter; anything it cannot follow stays UNKNOWN
+                from .miniinterp import run_function
+
+                params = [a.arg for a in callee.node.args.args]
+                if len(args) == len(params) and not callee.node.decorator_list:
+                    self._depth += 1
+                    try:
+                        shim = type("Shim", (), {"folder": self, "model": self.model})()
+                        kind, res = run_function(shim, callee.module, callee.node, dict(zip(params, args)))
+                    finally:
+                        self._depth -= 1
+                    return res if kind == "return" else UNKNOWN
             return UNKNOWN
         if isinstance(f, ast.Attribute) and isinstance(f.value, ast.Name) and f.attr in ("compile", "fullmatch", "match", "search") and f.value.id not in env:
             s_ = self.model.resolve(module.name, f.value.id)
@@ -517,6 +574,15 @@ class Folder:
                 r_ = getattr(recv, meth)(*args, **kwargs)
                 return list(r_) if False else r_
             if isinstance(recv, ClassRef) and not has_star:
+                if meth == "get" and 1 <= len(args) <= 2 and not kwargs and recv.ci.has_base_named("EnumMap") and "get" not in recv.ci.methods and is_known(args):
+                    return self.enum_lookup(recv.ci, args[0], args[1] if len(args) == 2 else None)
+                if meth == "decode" and len(args) == 1 and not kwargs and isinstance(args[0], (bytes, bytearray)):
+                    dc, _ = recv.ci.lookup("decode")
+                    ec, _ = recv.ci.lookup("_decode")
+                    fmt = self.elementary_format(recv.ci)
+                    if fmt and dc is not None and dc.name == "DataType" and ec is not None and ec.name == "ElementaryDataType" and len(args[0]) == struct.calcsize(fmt):
+                        return struct.unpack(fmt, bytes(args[0]))[0]
+                    return UNKNOWN
                 if meth == "encode" and len(args) == 1 and not kwargs:
                     # own encode override -> not a plain pack
                     dc, _ = recv.ci.lookup("encode")
